@@ -78,6 +78,11 @@ def generate(rng, tier, idx):
             pd = os.path.dirname(par)
             manifests[par].append({'tag': 'MANIFEST', 'path': os.path.relpath(mp, pd or '.'),
                                    'hashes': rng.choice([['SHA256'], ['MD5'], ['BLAKE2B', 'SHA512'], ['SHA1', 'SHA512']])})
+            if rng.random() < 0.08:
+                # an old tree: the reference carries only a hash this installation cannot compute (must be refused,
+                # not checked by size alone)
+                manifests[par][-1] = {'tag': 'MANIFEST', 'path': os.path.relpath(mp, pd or '.'), 'hashes': [],
+                                      'override': {'WHIRLPOOL': '0' * 128}}
     # second references: a Manifest listed by two Manifests (same directory or the level above),
     # one of the entries possibly size-only
     for lv, ms in enumerate(level_m):
@@ -345,6 +350,12 @@ def execute(sc):
             if v.kind == 'FAIL-ANY':
                 if r[0] == 'ok':
                     violations.append(viol('chain.top-unusable-but-result', '%s returned %r' % (what, r[1])))
+                continue
+            if r[0] == 'GE' and r[1] == 'UnsupportedHash' and (v.unsupported or 'unsupported-hash' in v.chain_why.values()):
+                # an entry on the way carries a hash this installation cannot compute: refusing is the required answer
+                zones['unsupported-hash-in-entry'] = zones.get('unsupported-hash-in-entry', 0) + 1
+                if v.chain:
+                    broken_any += 1
                 continue
             if r[0] == 'GE' and r[1] == 'ManifestMismatch' and r[2].path in v.bad_refs:
                 # a Manifest accepted through one parent's entry fails the entry another accepted Manifest holds for
